@@ -87,6 +87,35 @@ theorem get_none_iff_not_mem_keys (l : AList β) (k : Int) : l.get k = none ↔ 
 
 end AL
 
+/-- keys of a Go map are distinct -/
+def NodupKeys {β : Type} (l : AList β) : Prop := (AList.keys l).Nodup
+
+theorem keys_del {β : Type} (l : AList β) (k : Int) :
+    AList.keys (AList.del l k) = (AList.keys l).filter (fun x => !(x == k)) := by
+  unfold AList.keys AList.del
+  induction l with
+  | nil => rfl
+  | cons p r ih =>
+    simp only [List.filter, List.map_cons]
+    cases h : (p.1 == k) <;> simp [ih]
+
+theorem nodup_del {β : Type} (l : AList β) (k : Int) (h : NodupKeys l) : NodupKeys (AList.del l k) := by
+  unfold NodupKeys at *
+  rw [keys_del]
+  exact h.sublist (List.filter_sublist)
+
+theorem nodup_set {β : Type} (l : AList β) (k : Int) (v : β) (h : NodupKeys l) : NodupKeys (AList.set l k v) := by
+  have h2 := nodup_del l k h
+  unfold NodupKeys at *
+  unfold AList.set
+  simp only [AList.keys, List.map_cons, List.nodup_cons]
+  refine ⟨?_, h2⟩
+  have := keys_del l k
+  unfold AList.keys at this
+  rw [this]
+  simp
+
+
 /-! ## integer conversions -/
 
 theorem toU32_lt (x : Int) : toU32 x < 4294967296 := by
@@ -402,5 +431,283 @@ theorem electorStop_get (st : Srv σ) (s k : Int) :
   split
   · rfl
   · split <;> rfl
+
+/-! ## isolation: a shard's store is read and written only through its own shard -/
+
+/-- two servers that differ at most in the stores of shards other than `s` -/
+def Agree (s : Int) (st st' : Srv σ) : Prop :=
+  st'.me = st.me ∧ st'.n = st.n ∧ st'.leaders = st.leaders ∧ st'.lister = st.lister ∧
+  st'.stores.get s = st.stores.get s
+
+theorem upstreamHandler_agree (ops : StoreOps σ ρ) (s : Int) (st st' : Srv σ) (u : Str)
+    (h : Agree s st st') (hu : shardOf st u = s) :
+    Agree s (upstreamHandler ops st u).1 (upstreamHandler ops st' u).1 ∧
+    (upstreamHandler ops st u).2 = (upstreamHandler ops st' u).2 := by
+  obtain ⟨me, n, hn, leaders, stores, lister⟩ := st
+  obtain ⟨me', n', hn', leaders', stores', lister'⟩ := st'
+  obtain ⟨h1, h2, h3, h4, h5⟩ := h
+  simp only at h1 h2 h3 h4 h5
+  subst h1 h2 h3 h4
+  have hu' : shardOf (⟨me', n', hn', leaders', stores', lister'⟩ : Srv σ) u = s := hu
+  unfold upstreamHandler
+  simp only [hu, hu']
+  have hl : isLeader (⟨me', n', hn', leaders', stores', lister'⟩ : Srv σ) s =
+            isLeader (⟨me', n', hn, leaders', stores, lister'⟩ : Srv σ) s := rfl
+  rw [hl, h5]
+  split
+  · exact ⟨⟨rfl, rfl, rfl, rfl, h5⟩, rfl⟩
+  · split
+    · exact ⟨⟨rfl, rfl, rfl, rfl, h5⟩, rfl⟩
+    · refine ⟨⟨rfl, rfl, rfl, rfl, ?_⟩, rfl⟩
+      simp only [AL.get_set_eq]
+
+theorem syncShard_agree (ops : StoreOps σ ρ) (s : Int) (us : List Str) (st st' : Srv σ) (h : Agree s st st') :
+    Agree s (syncShard ops s us st).1 (syncShard ops s us st').1 ∧
+    (syncShard ops s us st).2 = (syncShard ops s us st').2 := by
+  induction us generalizing st st' with
+  | nil => exact ⟨h, rfl⟩
+  | cons u us ih =>
+    have hsh : shardOf st' u = shardOf st u := by unfold shardOf; rw [h.2.1]
+    unfold syncShard
+    rw [hsh]
+    split
+    · rename_i hu
+      have := upstreamHandler_agree ops s st st' u h hu
+      simp only [this.2]
+      split
+      · exact ⟨this.1, rfl⟩
+      · exact ih _ _ this.1
+    · exact ih _ _ h
+
+/-! ## moved from Props: helper lemmas about the shard map, the gateway sync and histories -/
+
+/-- on a server, `util.GetShardID(u, r.shardCount)` is `shardOf` -/
+theorem shardOf_spec {σ : Type} (st : Srv σ) (u : Str) : getShardID u st.n = .ok (shardOf st u) := by
+  unfold getShardID shardOf
+  simp [st.hn]
+
+/-- folding endpoints that do not mention shard `k` leaves `leaderEndpoints[k]` alone -/
+theorem gwSync_fold_other (eps : List Endpoint) (le : AList Str) (k : Int)
+    (h : ∀ ep ∈ eps, ep.shardID ≠ k) : (eps.foldl gwSyncStep le).get k = le.get k := by
+  induction eps generalizing le with
+  | nil => rfl
+  | cons ep eps ih =>
+    simp only [List.foldl_cons]
+    rw [ih _ (fun e he => h e (List.mem_cons_of_mem _ he))]
+    unfold gwSyncStep
+    simp only
+    have hne : k ≠ ep.shardID := fun e => h ep (List.mem_cons_self) e.symm
+    split
+    · exact AL.get_set_ne _ _ hne
+    · rfl
+
+/-- one sync step for shard `k` with leader `l`: afterwards the recorded name is `l` -/
+theorem gwSyncStep_getD (le : AList Str) (k : Int) (l : Str) :
+    ((gwSyncStep le ⟨k, l⟩).get k).getD [] = l := by
+  unfold gwSyncStep
+  simp only
+  split
+  · rw [AL.get_set_eq]; rfl
+  · rename_i h; simpa using h
+
+theorem gwSyncStep_get_of_ne_nil (le : AList Str) (k : Int) (l : Str) (hl : l ≠ []) :
+    (gwSyncStep le ⟨k, l⟩).get k = some l := by
+  unfold gwSyncStep
+  simp only
+  split
+  · exact AL.get_set_eq _ _ _
+  · rename_i h
+    have h' : (le.get k).getD [] = l := by simpa using h
+    cases hg : le.get k with
+    | none => rw [hg] at h'; exact absurd h'.symm hl
+    | some v => rw [hg] at h'; simp at h'; rw [h']
+
+theorem gwSync_get (leaders : AList Str) (le : AList Str) (k : Int) (l : Str)
+    (hnd : NodupKeys leaders) (hrange : ∀ p ∈ leaders, 0 ≤ p.1 ∧ p.1 < 2147483648)
+    (hk : leaders.get k = some l) (hl : l ≠ []) :
+    ((leaders.map fun p => ({ shardID := toI32 p.1, leader := p.2 } : Endpoint)).foldl gwSyncStep le).get k = some l := by
+  induction leaders generalizing le with
+  | nil => simp [AList.get] at hk
+  | cons p rest ih =>
+    obtain ⟨k', l'⟩ := p
+    have hr' := hrange (k', l') (List.mem_cons_self)
+    have hk'eq : toI32 k' = k' := toI32_of_range hr'.1 hr'.2
+    simp only [List.map_cons, List.foldl_cons]
+    unfold NodupKeys AList.keys at hnd
+    simp only [List.map_cons, List.nodup_cons] at hnd
+    by_cases e : k' = k
+    · subst e
+      simp only [AList.get, if_true] at hk
+      have hk2 : l' = l := Option.some.inj hk
+      subst hk2
+      -- the rest does not mention k'
+      rw [gwSync_fold_other]
+      · rw [hk'eq]; exact gwSyncStep_get_of_ne_nil le k' l' hl
+      · intro ep hep
+        simp only [List.mem_map] at hep
+        obtain ⟨q, hq, rfl⟩ := hep
+        simp only
+        have hq' := hrange q (List.mem_cons_of_mem _ hq)
+        rw [toI32_of_range hq'.1 hq'.2]
+        intro eq
+        apply hnd.1
+        simp only [List.mem_map]
+        exact ⟨q, hq, eq⟩
+    · simp only [AList.get, e, if_false] at hk
+      exact ih _ hnd.2 (fun q hq => hrange q (List.mem_cons_of_mem _ hq)) hk
+
+/-- with a non-empty identity, `IsLeader(s)` says exactly that the recorded leader of s is me -/
+theorem isLeader_iff (st : Srv σ) (s : Int) (hme : st.me ≠ []) :
+    isLeader st s = true ↔ st.leaders.get s = some st.me := by
+  unfold isLeader leaderName
+  cases h : st.leaders.get s with
+  | none =>
+    simp only [Option.getD_none]
+    constructor
+    · intro e
+      have : ([] : Str) = st.me := by simpa using e
+      exact absurd this.symm hme
+    · intro e; cases e
+  | some l =>
+    simp only [Option.getD_some]
+    constructor
+    · intro e
+      have : l = st.me := by simpa using e
+      rw [this]
+    · intro e
+      cases e
+      simp
+
+theorem not_isLeader (st : Srv σ) (s : Int) (hme : st.me ≠ []) (h : st.leaders.get s ≠ some st.me) :
+    isLeader st s = false := by
+  cases hl : isLeader st s with
+  | false => rfl
+  | true => exact absurd ((isLeader_iff st s hme).1 hl) h
+
+theorem step_me_n (ops : StoreOps σ ρ) (st : Srv σ) (e : Op) :
+    (step ops st e).1.me = st.me ∧ (step ops st e).1.n = st.n := by
+  cases e with
+  | gain s => exact ⟨(electorStart_frame ops st _).1, (electorStart_frame ops st _).2.1⟩
+  | lose s =>
+    show (electorStop st s).me = st.me ∧ (electorStop st s).n = st.n
+    unfold electorStop; simp only; split <;> exact ⟨rfl, rfl⟩
+  | newLeader s id => exact ⟨rfl, rfl⟩
+  | leaderCheck => exact ⟨(leaderCheck_frame ops st).1, (leaderCheck_frame ops st).2.1⟩
+  | listerAdd u => exact ⟨rfl, rfl⟩
+  | listerDel u => exact ⟨rfl, rfl⟩
+  | clusterUpdate u => exact ⟨(upstreamHandler_frame ops st _).1, (upstreamHandler_frame ops st _).2.1⟩
+  | allocate u i => exact ⟨(updateStatus_frame ops st _ _).1, (updateStatus_frame ops st _ _).2.1⟩
+  | acquire u i t => exact ⟨(doAcquire_frame ops st _ _ _).1, (doAcquire_frame ops st _ _ _).2.1⟩
+  | deleteCond k u nm i => exact ⟨(deleteCondition_frame ops st _ _ _ _).1, (deleteCondition_frame ops st _ _ _ _).2.1⟩
+
+/-- one step moves the elector's knowledge exactly as the callbacks say (`leaderEv`) -/
+theorem step_leaders (ops : StoreOps σ ρ) (st : Srv σ) (e : Op) (f : Int → Option Str)
+    (hf : ∀ s, st.leaders.get s = f s) (s : Int) :
+    (step ops st e).1.leaders.get s = leaderEv st.me f e s := by
+  cases e <;> simp only [step, leaderEv]
+  · rw [(electorStart_frame ops st _).2.2.1, AL.get_set]
+    split <;> simp [hf]
+  · rename_i s'
+    unfold electorStop
+    simp only
+    have hfr : ∀ x : Srv σ, (stopLeading x s').leaders = x.leaders := fun _ => rfl
+    rw [hfr]
+    unfold leaderName
+    rw [hf s']
+    split
+    · simp only [AL.get_del]
+      split <;> simp_all
+    · rename_i hne
+      split
+      · rename_i e; subst e; simp [hf]
+      · exact hf s
+  · unfold setLeader
+    simp only [AL.get_set]
+    split <;> simp [hf]
+  · rw [(leaderCheck_frame ops st).2.2.1]; exact hf s
+  · exact hf s
+  · exact hf s
+  · rw [(upstreamHandler_frame ops st _).2.2.1]; exact hf s
+  · rw [(updateStatus_frame ops st _ _).2.2.1]; exact hf s
+  · rw [(doAcquire_frame ops st _ _ _).2.2.1]; exact hf s
+  · rw [(deleteCondition_frame ops st _ _ _ _).2.2.1]; exact hf s
+
+theorem run_append (ops : StoreOps σ ρ) (st : Srv σ) (h : List Op) (e : Op) :
+    run ops st (h ++ [e]) = (step ops (run ops st h) e).1 := by
+  unfold run; simp [List.foldl_append]
+
+theorem run_cons (ops : StoreOps σ ρ) (st : Srv σ) (e : Op) (h : List Op) :
+    run ops st (e :: h) = run ops (step ops st e).1 h := rfl
+
+theorem run_me_n (ops : StoreOps σ ρ) (st : Srv σ) (h : List Op) :
+    (run ops st h).me = st.me ∧ (run ops st h).n = st.n := by
+  induction h generalizing st with
+  | nil => exact ⟨rfl, rfl⟩
+  | cons e h ih =>
+    rw [run_cons]
+    have := step_me_n ops st e
+    exact ⟨(ih _).1.trans this.1, (ih _).2.trans this.2⟩
+
+theorem leaderAfter_append (me : Str) (h : List Op) (e : Op) :
+    leaderAfter me (h ++ [e]) = leaderEv me (leaderAfter me h) e := by
+  unfold leaderAfter; simp [List.foldl_append]
+
+theorem shardOf_run (ops : StoreOps σ ρ) (st : Srv σ) (h : List Op) (u : Str) :
+    shardOf (run ops st h) u = shardOf st u := by
+  unfold shardOf; rw [(run_me_n ops st h).2]
+
+/-- well-formedness of the elector's map: distinct keys, all satisfying `P` -/
+def LeadersWF (P : Int → Prop) (l : AList Str) : Prop := NodupKeys l ∧ ∀ p ∈ l, P p.1
+
+theorem wf_set (P : Int → Prop) (l : AList Str) (k : Int) (v : Str) (h : LeadersWF P l) (hk : P k) :
+    LeadersWF P (AList.set l k v) := by
+  refine ⟨nodup_set l k v h.1, ?_⟩
+  intro p hp
+  unfold AList.set at hp
+  simp only [List.mem_cons] at hp
+  rcases hp with rfl | hp
+  · exact hk
+  · unfold AList.del at hp
+    exact h.2 p (List.mem_filter.1 hp).1
+
+theorem wf_del (P : Int → Prop) (l : AList Str) (k : Int) (h : LeadersWF P l) : LeadersWF P (AList.del l k) := by
+  refine ⟨nodup_del l k h.1, ?_⟩
+  intro p hp
+  unfold AList.del at hp
+  exact h.2 p (List.mem_filter.1 hp).1
+
+theorem step_wf (ops : StoreOps σ ρ) (P : Int → Prop) (st : Srv σ) (e : Op)
+    (h : LeadersWF P st.leaders) (he : ∀ s, Op.callbackShard e = some s → P s) :
+    LeadersWF P (step ops st e).1.leaders := by
+  cases e with
+  | gain s =>
+    show LeadersWF P (electorStart ops st s).leaders
+    rw [(electorStart_frame ops st s).2.2.1]
+    exact wf_set P _ s _ h (he s rfl)
+  | lose s =>
+    show LeadersWF P (electorStop st s).leaders
+    unfold electorStop
+    simp only
+    split
+    · exact wf_del P _ s h
+    · exact h
+  | newLeader s id => exact wf_set P _ s id h (he s rfl)
+  | leaderCheck => show LeadersWF P (leaderCheck ops st).leaders; rw [(leaderCheck_frame ops st).2.2.1]; exact h
+  | listerAdd u => exact h
+  | listerDel u => exact h
+  | clusterUpdate u => show LeadersWF P (upstreamHandler ops st u).1.leaders; rw [(upstreamHandler_frame ops st u).2.2.1]; exact h
+  | allocate u i => show LeadersWF P (updateStatus ops st u i).1.leaders; rw [(updateStatus_frame ops st u i).2.2.1]; exact h
+  | acquire u i t => show LeadersWF P (doAcquire ops st u i t).1.leaders; rw [(doAcquire_frame ops st u i t).2.2.1]; exact h
+  | deleteCond k u nm i => show LeadersWF P (deleteCondition ops st k u nm i).1.leaders; rw [(deleteCondition_frame ops st k u nm i).2.2.1]; exact h
+
+theorem run_wf (ops : StoreOps σ ρ) (P : Int → Prop) (h : List Op) (st : Srv σ)
+    (hw : LeadersWF P st.leaders) (he : ∀ e ∈ h, ∀ s, Op.callbackShard e = some s → P s) :
+    LeadersWF P (run ops st h).leaders := by
+  induction h generalizing st with
+  | nil => exact hw
+  | cons e h ih =>
+    rw [run_cons]
+    exact ih _ (step_wf ops P st e hw (he e List.mem_cons_self)) (fun e' he' => he e' (List.mem_cons_of_mem _ he'))
+
 
 end KG.Lemmas.Shard
